@@ -117,3 +117,55 @@ def switch_arm_defs(b, local, F=None):
 
 def const_names(t):
     return {x[2] for x in subterms(t) if x[0] == "const" and len(x) > 2} | {x[1] for x in subterms(t) if x[0] in ("namedconst", "constref")}
+
+
+def try_sites(b):
+    """`?` sites: list of dicts {call_block, src_local, cont_block, break_block, payload_local, residual_ok}."""
+    out = []
+    for bi, t in b.calls():
+        name = t["callee"].get("def", "")
+        if name != "std::ops::Try::branch":
+            continue
+        if t["dest"]["p"] or t["target"] is None:
+            continue
+        r = t["dest"]["l"]
+        src = None
+        p = t["args"][0].get("m") or t["args"][0].get("c")
+        if p is not None and not p["p"]:
+            src = p["l"]
+        nb = t["target"]
+        sw = b.blocks[nb]["term"]
+        site = {"call_block": bi, "src_local": src, "res_local": r, "cont_block": None, "break_block": None,
+                "payload_local": None, "residual_ok": False, "sp": t["sp"], "self_ty": t["callee"].get("self_ty", {}).get("s", "")}
+        if sw["t"] == "switch":
+            dt = b.term_of_operand(sw["discr"])
+            if dt == ("discr", b.term_of_local(r)) or (dt[0] == "discr"):
+                for v, d in sw["targets"]:
+                    if int(v) == 0:
+                        site["cont_block"] = d
+                    elif int(v) == 1:
+                        site["break_block"] = d
+        if site["cont_block"] is not None:
+            for st in b.blocks[site["cont_block"]]["stmts"]:
+                if st["s"] == "assign" and st["rv"]["r"] == "use":
+                    q = st["rv"]["o"].get("m") or st["rv"]["o"].get("c")
+                    if q and q["l"] == r and any(isinstance(e, dict) and e.get("name") == "Continue" for e in q["p"]) and not st["lhs"]["p"]:
+                        site["payload_local"] = st["lhs"]["l"]
+        if site["break_block"] is not None:
+            # break arm: from_residual into _0, then only returns
+            bb = site["break_block"]
+            tt = b.blocks[bb]["term"]
+            if tt["t"] == "call" and tt["callee"].get("def") == "std::ops::FromResidual::from_residual" and \
+                    tt["dest"]["l"] == 0 and not tt["dest"]["p"]:
+                site["residual_ok"] = True
+        out.append(site)
+    return out
+
+
+def ok_blocks(b):
+    """Blocks that assign `_0 = Result::Ok{..}` (or Option::Some), by variant name."""
+    res = {}
+    for bi, si, st in b.stmts():
+        if st["s"] == "assign" and st["lhs"]["l"] == 0 and not st["lhs"]["p"] and st["rv"]["r"] == "agg" and st["rv"].get("agg") == "adt":
+            res.setdefault(st["rv"]["vname"], []).append(bi)
+    return res
